@@ -161,7 +161,7 @@ class C24(Check):
         "the link itself is deterministic for the generated commands (checked per case: run 0 vs run 1, else oracle split)",
         "only vocabulary words follow shell metacharacters, so a mis-quoted script can run nothing real",
     ]
-    quick_cases = 320
+    quick_cases = 240
     thorough_cases = 10000
 
     def setup(self, tier):
